@@ -163,6 +163,10 @@ def run_case(case):
         kw["pushname"] = case["pushname"]
     if case.get("edge"):
         kw["edge_routing_info"] = bytes.fromhex(case["edge"])
+    for attr in ("mcc", "mnc", "fdid"):
+        # the network codes and the device id of the account are set independently of one another; an unset code is presented as 000
+        if case.get(attr):
+            kw[attr] = case[attr]
     if variant == "IK":
         kw["server_static_public"] = PublicKey(bytes(server.s.public.data))
     elif variant == "IK_stale":
@@ -455,7 +459,9 @@ def _run(case, out, rig, server, cfg, variant, phone):
     checks = [("username", p.username, int(phone)), ("passive", p.passive, bool(case.get("passive"))),
               ("push_name", p.push_name, exp_push), ("os_version", p.user_agent.os_version, env.getOSVersion()),
               ("manufacturer", p.user_agent.manufacturer, env.getManufacturer()), ("device", p.user_agent.device, env.getDeviceName()),
-              ("app_version", got_ver[:len(ver)], ver)]
+              ("app_version", got_ver[:len(ver)], ver),
+              ("mcc", p.user_agent.mcc, case.get("mcc") or "000"), ("mnc", p.user_agent.mnc, case.get("mnc") or "000"),
+              ("phone_id", p.user_agent.phone_id, case.get("fdid") or "")]
     for name, got, exp in checks:
         if got != exp:
             out.fail("handshake", "login:client_payload_%s" % name, {"got": repr(got), "expected": repr(exp)})
@@ -594,6 +600,9 @@ def case_strategy():
             "passive": draw(st.booleans()),
             "pushname": draw(st.one_of(st.none(), st.text(min_size=1, max_size=12))),
             "edge": draw(st.one_of(st.none(), st.binary(min_size=1, max_size=40).map(lambda b: b.hex()))),
+            "mcc": draw(st.one_of(st.none(), st.text(alphabet="0123456789", min_size=3, max_size=3))),
+            "mnc": draw(st.one_of(st.none(), st.text(alphabet="0123456789", min_size=2, max_size=3))),
+            "fdid": draw(st.one_of(st.none(), st.uuids().map(str))),
             "chunks": draw(st.one_of(st.just([]), st.just([1]), st.lists(st.integers(1, 90), min_size=1, max_size=6))),
             "coalesced": draw(st.integers(0, 3)),
             "after_server": draw(st.integers(0, 4)),
@@ -627,6 +636,11 @@ DAMAGE = ["ephemeral_flip", "ephemeral_short", "ephemeral_empty", "static_flip",
 
 def _enum_basic():
     for variant in ("XX", "IK"):
+        for mcc, mnc, fdid in (("262", None, None), (None, "07", None), ("310", "260", "3c1f9c8e-5d0a-4b8f-9a57-0d6c4f0f7b11"),
+                               (None, None, "3c1f9c8e-5d0a-4b8f-9a57-0d6c4f0f7b11")):
+            yield {"sub": "login", "variant": variant, "phone": "4915112345", "passive": False, "pushname": None, "edge": None,
+                   "chunks": [], "coalesced": 0, "after_server": 1, "after_client": 1, "prefix": [], "corrupt": False, "choices": [],
+                   "mcc": mcc, "mnc": mnc, "fdid": fdid}
         for size in (65000, 70000):
             for chunks in ([], [1024], [65536, 7]):
                 yield {"sub": "login", "variant": variant, "phone": "4915112345", "passive": False, "pushname": None, "edge": None,
@@ -735,3 +749,4 @@ def plan(tier):
     }
 
 RULE += (' Also: a server stanza of 5000..200000 bytes delivered in socket-sized reads; handshake-reply damage generated as (field, position, bit pattern), truncation or extension of a field or of the serialised message; after every reported handshake failure a further login must succeed; cut kind closed_at_once (the peer closes the connection the moment it is up, the next login follows at once) with a complete single-preemption sweep; slow_delivery: a stanza that arrived with the handshake reply is still being handled by the layer above (virtual time) while the connection is lost and the next login completes with stanzas queued behind its reply - stanzas are handled one at a time and in order.')
+RULE += (" The client attributes presented include the account's network codes (mcc, mnc) and device id, each set or unset independently.")
